@@ -133,3 +133,80 @@ def run (s : St) (evs : List Ev) : St := evs.foldl step s
 def init (limit : Nat) : St := { limit := limit }
 
 end HapVerif.ReqConn
+
+/-! # Below the quiescence abstraction: what happens inside one event-loop iteration
+
+`Task.cancel()` (or the 30 s timer) completes a caller's future AT ONCE, but the caller's task - whose `except`
+branch closes the transport - only runs at the next loop iteration; `data_received` completes the future of the
+head of `result_cbs` at once, but that caller's task, too, only runs at the next iteration.  In between, further
+reads and cancellations can arrive.  This automaton has those micro-steps; `settle` is "the loop runs". -/
+
+namespace HapVerif.ReqConn.Micro
+
+inductive Outcome
+  | ok (k : Nat)      -- completed with the k-th response read on the connection
+  | disconnected
+  | cancelled
+  deriving DecidableEq, Repr
+
+structure Entry where
+  id : Nat
+  idx : Nat           -- position among the requests written on this connection (0 = first)
+  gaveUp : Bool       -- its future is already done (cancelled / timed out); its task has not run yet
+  deriving DecidableEq, Repr
+
+structure St where
+  up : Bool := true                    -- the transport is not closing
+  fifo : List Entry := []              -- `result_cbs`, oldest first
+  pendingDone : List (Nat × Nat) := [] -- futures that hold a response (id, k); their tasks have not run yet
+  closers : List Nat := []             -- callers whose task will close the transport when it runs (outcome: cancelled)
+  nResp : Nat := 0                     -- complete responses read so far
+  nWritten : Nat := 0                  -- requests written so far
+  wrote : List (Nat × Nat) := []       -- (id, idx) of every request written
+  log : List (Nat × Outcome) := []     -- final outcomes, in the order the tasks finished
+  deriving DecidableEq, Repr
+
+/-- the loop runs until nothing is ready: tasks whose futures hold a response return it; a task that gave up closes
+    the transport, after which `connection_lost` fails whatever is still waiting -/
+def settle (s : St) : St :=
+  let done := s.pendingDone.map (fun p => (p.1, Outcome.ok p.2))
+  let gave := s.fifo.filter (·.gaveUp)
+  let closing := !s.closers.isEmpty || !gave.isEmpty || !s.up
+  if closing then
+    { s with up := false, pendingDone := [], closers := [], fifo := []
+             log := s.log ++ done ++ s.closers.map (fun i => (i, Outcome.cancelled)) ++
+                    gave.map (fun e => (e.id, Outcome.cancelled)) ++
+                    (s.fifo.filter (fun e => !e.gaveUp)).map (fun e => (e.id, Outcome.disconnected)) }
+  else { s with pendingDone := [], log := s.log ++ done }
+
+inductive Ev
+  | write (id : Nat)   -- a caller's task starts and runs `_send_lines` (the loop runs)
+  | deliver            -- one complete response is read (`data_received`); the loop does NOT run
+  | giveUp (id : Nat)  -- `task.cancel()` / the request's timer fires; the loop does NOT run
+  | tick               -- the loop runs
+  deriving DecidableEq, Repr
+
+def step (s : St) : Ev → St
+  | .write id =>
+    let s := settle s
+    if s.up then
+      { s with fifo := s.fifo ++ [⟨id, s.nWritten, false⟩], nWritten := s.nWritten + 1, wrote := s.wrote ++ [(id, s.nWritten)] }
+    else { s with log := s.log ++ [(id, .disconnected)] }   -- "Transport is closed"
+  | .deliver =>
+    if !s.up then s
+    else match s.fifo with
+      | [] => { s with up := false, nResp := s.nResp + 1 }   -- `pop(0)` raises: the transport is closed
+      | e :: rest =>
+        if e.gaveUp then { s with fifo := rest, nResp := s.nResp + 1, closers := s.closers ++ [e.id] }  -- response discarded
+        else { s with fifo := rest, nResp := s.nResp + 1, pendingDone := s.pendingDone ++ [(e.id, s.nResp)] }
+  | .giveUp id =>
+    if s.pendingDone.any (·.1 == id) then
+      -- the future already holds a response, but the task is cancelled before it runs: the caller gets
+      -- CancelledError and its `except` branch closes the transport
+      { s with pendingDone := s.pendingDone.filter (·.1 != id), closers := s.closers ++ [id] }
+    else { s with fifo := s.fifo.map (fun e => if e.id = id then { e with gaveUp := true } else e) }
+  | .tick => settle s
+
+def run (s : St) (evs : List Ev) : St := evs.foldl step s
+
+end HapVerif.ReqConn.Micro
